@@ -21,7 +21,7 @@ Letter (= per-cycle input, flat tuple; same order as `lean/LitexModel/Axi/LiteIn
 Outputs (flat list):
     for each slave  j: the 10 master-to-slave numbers it sees
     for each master i: the 8 slave-to-master numbers it sees
-`*.pay` packs the channel's pass-through payload (LSB first):
+`*.pay` packs the channel's pass-through payload (LSB first; then the channel's `first` and — except r — `last` line):
     AXI-Lite  aw/ar.pay = prot            w.pay = data, strb              b.pay = resp      r.pay = resp, data
     AXI4      aw/ar.pay = burst,len,size,lock,prot,cache,qos,region,id    w.pay = data,strb,last   b.pay = resp,id
               r.pay = resp,data,id
@@ -430,7 +430,10 @@ def pay_fields(port, ch, full):
     ep = getattr(port, ch)
     names = [n for n, _ in ep.description.payload_layout + ep.description.param_layout if n != "addr"]
     sigs = [getattr(ep, n) for n in names]
-    if full and ch == "w":
+    # the stream `first` / `last` lines of every channel travel through the same statements as the payload (muxed by the
+    # grant / copied / OR-masked): they are part of `<ch>.pay`, `last` on top (`r.last` keeps its own number)
+    sigs.append(ep.first)
+    if ch != "r":
         sigs.append(ep.last)
     return sigs
 
@@ -482,7 +485,7 @@ def check_port_layout(port, full, data_width, address_width, id_width=1, what="p
 def pay_width(full, ch, data_width, address_width, id_width=1):
     """Width of `<ch>.pay` from the constructor arguments."""
     w = sum(wd for n, wd in spec_layout(full, data_width, address_width, id_width)[ch] if n != "addr")
-    return w + (1 if (full and ch == "w") else 0)
+    return w + (1 if ch == "r" else 2)          # + first [+ last]
 
 
 def pay_field(full, ch, name, data_width, address_width, id_width=1):
@@ -861,6 +864,10 @@ def make_shared(n, decs, full=False, data_width=8, address_width=2, register=Fal
     mod = cls(masters, [(d.fn(bus), s) for d, s in zip(decs, slaves)], **args)
     name = kw.pop("name", None) or "%sShared %dx%d/%db" % (_tag(full), n, m, data_width)
     lean_open = "shared %d %d %d %d %d %s" % (n, m, int(full), data_width, address_width, " ".join(d.word() for d in decs))
+    if isinstance(timeout, int) and not isinstance(timeout, bool):
+        # finite timeout: the model is the shared interconnect composed with the AXI(Lite)Timeout FSM (`SharedT`)
+        lean_open = "sharedt %d %d %d %d %d %d %s" % (n, m, int(full), data_width, address_width, timeout,
+                                                     " ".join(d.word() for d in decs))
     inst = AxiFabric(name, "shared", mod, masters, slaves, decs, lean_open, full=full, data_width=data_width,
                      address_width=address_width, m_address_widths=maw, id_width=id_width, bus=bus, **kw)
     inst.timeout = timeout
